@@ -608,7 +608,8 @@ func equalFold(m dsl.Matcher) {
 		`strings.ToUpper($x) == $y`,
 		`strings.ToUpper($x) == strings.ToUpper($y)`,
 		`$x == strings.ToUpper($y)`).
-		Where(m["x"].Pure && m["y"].Pure && m["x"].Text != m["y"].Text).
+		Where(m["x"].Pure && m["y"].Pure && m["x"].Text != m["y"].Text &&
+			m["x"].Type.Is(`string`) && m["y"].Type.Is(`string`)). // not an interface value, not a named string type
 		Suggest(`strings.EqualFold($x, $y)`).
 		Report(`consider replacing with strings.EqualFold($x, $y)`)
 
@@ -620,7 +621,8 @@ func equalFold(m dsl.Matcher) {
 		`strings.ToUpper($x) != $y`,
 		`strings.ToUpper($x) != strings.ToUpper($y)`,
 		`$x != strings.ToUpper($y)`).
-		Where(m["x"].Pure && m["y"].Pure && m["x"].Text != m["y"].Text).
+		Where(m["x"].Pure && m["y"].Pure && m["x"].Text != m["y"].Text &&
+			m["x"].Type.Is(`string`) && m["y"].Type.Is(`string`)).
 		Suggest(`!strings.EqualFold($x, $y)`).
 		Report(`consider replacing with !strings.EqualFold($x, $y)`)
 
